@@ -824,14 +824,14 @@ func main() {
 	plans := []plan{
 		{"full+raw", fullRaw, 3},
 		{"nested-box+pair-2kinds", alpha{Generics: bp, Types: two, Vals: two, Routes: both, Nested: true}, 2},
+		// one `new G<…>` site executed several times (function called again), failed first attempts, wrong arity
+		{"sites-full3", alpha{Generics: bp, Types: three, Vals: three, Routes: both, Sites: true}, 3},
+		{"sites-box2", alpha{Generics: bx, Types: two, Vals: two, Routes: both, Sites: true}, 4},
 		{"box-4kinds+raw", alpha{Generics: bx, Types: four, Vals: four, Routes: both, Raw: true}, 4},
 		// who executes the store × visibility of the typed member (routeOrder / visOrder in model.go)
 		{"agents-full3-priv+raw", alpha{Generics: bp, Types: three, Vals: three, Routes: inClass, Raw: true, Vis: "priv"}, 3},
 		{"agents-full3-prot+raw", alpha{Generics: bp, Types: three, Vals: three, Routes: inClass, Raw: true, Vis: "prot"}, 3},
 		{"agents-full3-pub+raw", alpha{Generics: bp, Types: three, Vals: three, Routes: routeOrder, Raw: true}, 3},
-		// one `new G<…>` site executed several times (function called again), failed first attempts, wrong arity
-		{"sites-full3", alpha{Generics: bp, Types: three, Vals: three, Routes: both, Sites: true}, 3},
-		{"sites-box2", alpha{Generics: bx, Types: two, Vals: two, Routes: both, Sites: true}, 4},
 		// … × the syntax of the store statement (formOrder)
 		{"forms-box3-pub", alpha{Generics: bx, Types: three, Vals: three, Routes: routeOrder, Stores: formOrder}, 3},
 		{"forms-box3-prot", alpha{Generics: bx, Types: three, Vals: three, Routes: inClass, Stores: formOrder, Vis: "prot"}, 3},
